@@ -56,16 +56,18 @@ func variants(id int) []variant {
 	return []variant{
 		base,
 		// edits that change Stmt.Text
-		mk("lit-blank", " ", " ", "a b", ";\n"),      // double blank inside a literal -> single
-		mk("lit-newline", " ", " ", "a\nb", ";\n"),   // line break inside a literal
-		mk("lit-crlf", " ", " ", "a\r\nb", ";\n"),    // CRLF inside a literal
-		mk("lit-tab", " ", " ", "a\tb", ";\n"),       // tab inside a literal
-		mk("break", " ", "\n", "a  b", ";\n"),        // internal line break
-		mk("indent", " ", "\n    ", "a  b", ";\n"),   // re-indented continuation line
-		mk("indent-tab", " ", "\n\t", "a  b", ";\n"), // tab vs blanks
-		mk("crlf", " ", "\r\n    ", "a  b", ";\n"),   // CRLF vs LF inside a multi-line statement
-		mk("tab", "\t", " ", "a  b", ";\n"),          // tab between key words
-		mk("blank-delim", " ", " ", "a  b", "  ;\n"), // blanks before the delimiter
+		mk("lit-blank", " ", " ", "a b", ";\n"),                                          // double blank inside a literal -> single
+		mk("lit-newline", " ", " ", "a\nb", ";\n"),                                       // line break inside a literal
+		mk("lit-crlf", " ", " ", "a\r\nb", ";\n"),                                        // CRLF inside a literal
+		mk("lit-tab", " ", " ", "a\tb", ";\n"),                                           // tab inside a literal
+		mk("break", " ", "\n", "a  b", ";\n"),                                            // internal line break
+		mk("indent", " ", "\n    ", "a  b", ";\n"),                                       // re-indented continuation line
+		mk("indent-tab", " ", "\n\t", "a  b", ";\n"),                                     // tab vs blanks
+		mk("crlf", " ", "\r\n    ", "a  b", ";\n"),                                       // CRLF vs LF inside a multi-line statement
+		mk("tab", "\t", " ", "a  b", ";\n"),                                              // tab between key words
+		mk("blank-delim", " ", " ", "a  b", "  ;\n"),                                     // blanks before the delimiter
+		mk("trail-line", " ", " \n", "a  b", ";\n"),                                      // a blank before an internal line break
+		{"lower", fmt.Sprintf("insert into journal values (%d, 'a  b');\n", id), "a  b"}, // not white space: the key words in lower case
 		// edits that do not change Stmt.Text (the scanner trims / drops them)
 		mk("blank-after", " ", " ", "a  b", ";   \n"), // blanks after the delimiter
 		{"leading", "\n   " + base.raw, base.lit},     // leading blank line and indentation
@@ -82,7 +84,7 @@ func content(n int, vs []int) string {
 	return b.String()
 }
 
-var reID = regexp.MustCompile(`VALUES \((\d+),`)
+var reID = regexp.MustCompile(`(?i)VALUES \((\d+),`)
 
 // ---------------------------------------------------------------- names
 
@@ -962,14 +964,14 @@ func main() {
 	switch *mode {
 	case "api":
 		hs := genAPI(*tier)
-		w.Rule = "exhaustive: a file of 3 statements, first run fails at statement k+1 (k=0..2), statement j (every j; quick: k=0 only j=0) rewritten from variant a to variant b for every ordered pair of the 15 white-space variants (11 change Stmt.Text, 4 change only the file), file name cycling through 18 name shapes; + double failure (statement 1 applied, statement 2 re-spelled while in the tail and applied by the second attempt, which fails at statement 3; then statement j re-spelled; quick: a third of the (m,j,b) triples) + every name shape x {applied, tail} edit; history = ExecuteN (fails), edit + re-hash, ExecuteN, ExecuteN, old content restored + re-hash, ExecuteN. Non-trivial = k>=1 (the hash comparison loop runs); distinct by (name,k,j,a,b)"
+		w.Rule = "exhaustive: a file of 3 statements, first run fails at statement k+1 (k=0..2), statement j (every j; quick: k=0 only j=0) rewritten from variant a to variant b for every ordered pair of the 17 spellings (13 change Stmt.Text, 4 change only the file), file name cycling through 18 name shapes; + double failure (statement 1 applied, statement 2 re-spelled while in the tail and applied by the second attempt, which fails at statement 3; then statement j re-spelled; quick: a third of the (m,j,b) triples) + every name shape x {applied, tail} edit; history = ExecuteN (fails), edit + re-hash, ExecuteN, ExecuteN, old content restored + re-hash, ExecuteN. Non-trivial = k>=1 (the hash comparison loop runs); distinct by (name,k,j,a,b)"
 		for i := range hs {
 			hs[i].id = fmt.Sprintf("wsapi-%d", i+1)
 			runAPI(w, hs[i])
 		}
 	case "cli":
 		hs := genCLI(*tier)
-		w.Rule = "a file of 3 statements, 2 applied, statement j rewritten base->variant (one applied statement and the tail) and variant->base (one of them; thorough: every j) for the 14 white-space variants (+3 pairs named in the task), tx-mode none/file alternating: apply (fails), edit + `migrate hash`, apply (thorough: twice), status; + 18 file-name shapes x edit of the applied statement: six applies = tx-mode none/file/all x default/JSON log format on the same database, status; + tail edit for 6 of the names (thorough: all): apply (JSON), apply, status. Non-trivial = every history (k>=1); distinct by (name,j,a,b,modes)"
+		w.Rule = "a file of 3 statements, 2 applied, statement j rewritten base->variant (one applied statement and the tail) and variant->base (one of them; thorough: every j) for the 16 other spellings (+3 pairs named in the task), tx-mode none/file alternating: apply (fails), edit + `migrate hash`, apply (thorough: twice), status; + 18 file-name shapes x edit of the applied statement: six applies = tx-mode none/file/all x default/JSON log format on the same database, status; + tail edit for 6 of the names (thorough: all): apply (JSON), apply, status. Non-trivial = every history (k>=1); distinct by (name,j,a,b,modes)"
 		for i := range hs {
 			hs[i].id = fmt.Sprintf("wscli-%d", i+1)
 		}
